@@ -472,15 +472,20 @@ pub fn unmanaged_race(prop: &'static str, seed: u64, close: bool) -> RaceOut {
 pub fn unmanaged_bounds_race(prop: &'static str, seed: u64) -> RaceOut {
     use deadpool::unmanaged::{Pool as UPool, PoolError as UErr};
     let mut rng = Rng::derive(seed, 0x7ad0, 0);
-    let never_full = rng.chance(1, 2);
-    let g = rng.range(1, 6) as usize;
-    let n = if never_full { rng.range(1, 4) as usize } else { g + 1 };
+    let regime = rng.below(3);
+    let never_full = regime == 0;
+    // third regime, "contended": fewer objects than threads and gets with a timeout of 30 s that are polled once
+    // and dropped if they would have to wait. Whatever the interleaving, such a call cannot report Timeout (30 s
+    // have not passed) - it is served or it is still waiting.
+    let contended = regime == 2;
+    let g = if contended { rng.range(2, 6) as usize } else { rng.range(1, 6) as usize };
+    let n = if never_full { rng.range(1, 4) as usize } else if contended { rng.range(1, (g - 1) as u64) as usize } else { g + 1 };
     let iters = rng.range(3000, 20000) as usize;
     let querier = rng.chance(2, 3);
     let cnt = Arc::new(UCnt { dropped: AtomicUsize::new(0) });
     // a runtime only to give the timed calls their timer: nothing ever waits in these regimes
     let timer_rt = tokio::runtime::Builder::new_current_thread().enable_time().build().expect("rt");
-    let timed = !never_full && rng.chance(1, 2);
+    let timed = contended || (!never_full && rng.chance(1, 2));
     let pool: UPool<UL> = if timed {
         UPool::from_config(&deadpool::unmanaged::PoolConfig { max_size: n, timeout: None, runtime: Some(deadpool::Runtime::Tokio1) })
     } else {
@@ -512,6 +517,19 @@ pub fn unmanaged_bounds_race(prop: &'static str, seed: u64) -> RaceOut {
                             },
                             Err(UErr::Timeout) => {}
                             Err(e) => return Err(format!("closed_on_open_pool: iteration {}: try_remove on an open pool failed with {:?}", i, e)),
+                        }
+                    } else if contended {
+                        if i % 5 == 4 {
+                            // plain non-waiting calls in between keep the counters moving
+                            if let Ok(o) = pool.try_get() {
+                                drop(o);
+                            }
+                        } else {
+                            match poll_once(pool.timeout_get(Some(Duration::from_secs(30)))) {
+                                Some(Ok(o)) => drop(o),
+                                Some(Err(e)) => return Err(format!("timeout_early: iteration {}: timeout_get(30 s) failed with {:?} at its first poll", i, e)),
+                                None => {}
+                            }
                         }
                     } else if timed && i % 2 == 1 {
                         // a get with a generous timeout: an object is idle at every instant, so it is served at the
@@ -578,6 +596,7 @@ pub fn unmanaged_bounds_race(prop: &'static str, seed: u64) -> RaceOut {
             Some(("is_closed_true", m)) => ("is_closed_true", m.to_string()),
             Some(("status_implausible", m)) => ("status_implausible", m.to_string()),
             Some(("status_wrapped", m)) => ("status_wrapped", m.to_string()),
+            Some(("timeout_early", m)) => ("timeout_early", m.to_string()),
             _ => ("race_call_failed", e.clone()),
         };
         viol.push(Violation { prop, oracle, msg });
@@ -604,7 +623,7 @@ pub fn unmanaged_bounds_race(prop: &'static str, seed: u64) -> RaceOut {
     if viol.is_empty() && (st.size != n || st.available != n || st.waiting != 0 || dropped != 0) {
         viol.push(Violation { prop, oracle: "status_at_rest", msg: format!("{} objects, none outside, {} destroyed: status {:?}", n, dropped, st) });
     }
-    let desc = format!("unmanaged bounds race regime={} timed_gets={} threads={} objects={} iters={} querier={} queries={}", if never_full { "never_full" } else { "never_empty" }, timed, g, n, iters, querier, queries);
+    let desc = format!("unmanaged bounds race regime={} timed_gets={} threads={} objects={} iters={} querier={} queries={}", if never_full { "never_full" } else if contended { "contended" } else { "never_empty" }, timed, g, n, iters, querier, queries);
     drop(timer_rt);
     RaceOut { violations: viol, hash: vh_common::fnv1a(desc.as_bytes()), desc: Json::obj().with("engine", "uth_race").with("profile_prop", prop).with("seed", seed).with("case", desc), events: calls.load(Ordering::Relaxed) as u64 + queries }
 }
